@@ -49,6 +49,8 @@ type DB struct {
 	Log    []Event
 	Faults Faults
 	execs  int
+	// Fired counts the injected faults that were actually returned to the caller.
+	Fired int
 
 	// Result, when set, is served for every query regardless of its text.
 	Result *Table
@@ -81,6 +83,7 @@ func (c *conn) Prepare(query string) (driver.Stmt, error) {
 	defer c.db.mu.Unlock()
 	c.db.Log = append(c.db.Log, Event{Kind: "prepare", Query: query})
 	if c.db.Faults.Prepare {
+		c.db.Fired++
 		return nil, ErrInjected
 	}
 	return &stmt{db: c.db, query: query}, nil
@@ -123,6 +126,7 @@ func (s *stmt) Exec(args []driver.Value) (driver.Result, error) {
 	n := s.db.execs
 	s.db.execs++
 	if s.db.Faults.ExecAt >= 0 && n >= s.db.Faults.ExecAt {
+		s.db.Fired++
 		return nil, ErrInjected
 	}
 	if m := insertRe.FindStringSubmatch(s.query); m != nil {
@@ -145,6 +149,7 @@ func (s *stmt) Query(args []driver.Value) (driver.Rows, error) {
 	defer s.db.mu.Unlock()
 	s.db.Log = append(s.db.Log, Event{Kind: "query", Query: s.query, Args: append([]driver.Value(nil), args...)})
 	if s.db.Faults.Query {
+		s.db.Fired++
 		return nil, ErrInjected
 	}
 	t := s.db.Result
@@ -175,6 +180,7 @@ type Unsupported struct{ X int }
 func (r *rows) Next(dest []driver.Value) error {
 	f := r.db.Faults
 	if f.NextAt >= 0 && r.pos >= f.NextAt {
+		r.db.Fired++
 		return ErrInjected
 	}
 	if r.pos >= len(r.t.Rows) {
